@@ -138,6 +138,20 @@ func c05R2(c *Ctx) {
 					fresh = true
 				}
 			}
+			// the chain context (BLOCKHASH source) is rebuilt from the database per transaction, never a long-lived object
+			bcArg := ci.Common().Args[1]
+			for {
+				if mi, isMI := bcArg.(*ssa.MakeInterface); isMI {
+					bcArg = mi.X
+					continue
+				}
+				break
+			}
+			bcFresh := false
+			if call, ok := bcArg.(*ssa.Call); ok && cfgxCallee(call) == "chain/app/evm.NewBlockChain" && callArg(call, 0) == "a0.stateDb" {
+				bcFresh = true
+			}
+			c.R.Ob(rule, "executeOriginTx:chain-context-fresh-per-transaction", bcFresh, c.Pos(ci), fname(g), "the ChainContext given to ApplyTransaction must be NewBlockChain(app.stateDb) built for this transaction: a long-lived object can carry in-memory history (a header cache) that a restarted replica lacks, so BLOCKHASH differs; got "+shorten(exprOf(bcArg)))
 			c.R.Ob(rule, "executeOriginTx:gas-pool-fresh-per-transaction", fresh, c.Pos(ci), fname(g), "the GasPool given to ApplyTransaction must be created for this transaction (new(GasPool).AddGas(...)): a pool kept in the application drains across transactions and makes validity depend on the process' history; got "+shorten(exprOf(gp)))
 		}
 	}
